@@ -17,6 +17,8 @@ mod mon_c04;
 mod mon_c05;
 mod mon_c07;
 mod mon_c08;
+mod mon_c11;
+mod fields;
 mod mon_c13;
 mod mon_c14;
 mod mon_c15;
@@ -120,6 +122,7 @@ fn main() {
         "C01" => mon_c01::run(&ctx, &mut rep),
         "C02" => mon_c02::run(&ctx, &mut rep),
         "C17" => mon_c17::run(&ctx, &mut rep),
+        "C11" => mon_c11::run(&ctx, &mut rep),
         "C13" => mon_c13::run(&ctx, &mut rep),
         "C14" => mon_c14::run(&ctx, &mut rep),
         "C15" => mon_c15::run(&ctx, &mut rep),
